@@ -50,6 +50,7 @@ type Input struct {
 
 type QObs struct {
 	Selected    *string `json:"selected"`
+	ReversedSel *string `json:"reversedSelected"`
 	RefRejected bool    `json:"refRejected"`
 	ViaVerify   string  `json:"viaVerify"`
 	ViaSkip     string  `json:"viaSkip"`
@@ -58,8 +59,10 @@ type QObs struct {
 }
 
 type Obs struct {
-	Queries   []QObs `json:"queries"`
-	GlobalSel *QObs  `json:"globalSel"`
+	Validated       bool   `json:"validated"`
+	VerifierAccepts bool   `json:"verifierAccepts"`
+	Queries         []QObs `json:"queries"`
+	GlobalSel       *QObs  `json:"globalSel"`
 }
 
 const (
@@ -323,8 +326,11 @@ type e2e struct {
 		notation.BlobVerifier
 		SkipVerify(ctx context.Context, opts notation.VerifierVerifyOptions) (bool, *trustpolicy.VerificationLevel, error)
 	}
-	ts *memStore
+	ts    *memStore
+	built bool
 }
+
+const noVerifier = other + ":no-verifier"
 
 func newE2E(kind string, stmts []Stmt, raw []byte) *e2e {
 	ts := &memStore{root: getWorld().chain.Root().Cert}
@@ -336,14 +342,18 @@ func newE2E(kind string, stmts []Stmt, raw []byte) *e2e {
 	}
 	v, err := verifier.NewVerifierWithOptions(ts, opts)
 	if err != nil {
-		panic(fmt.Sprintf("generator emitted a document the verifier refuses: %v\n%s", err, raw))
+		// observed, not assumed: the constructor refused the document
+		return &e2e{stmts: stmts, ts: ts}
 	}
-	return &e2e{stmts: stmts, v: v, ts: ts}
+	return &e2e{stmts: stmts, v: v, ts: ts, built: true}
 }
 
 var garbage = []byte(`{"not":"an envelope"}`)
 
 func (e *e2e) verifyOCI(ref string, real bool) string {
+	if !e.built {
+		return noVerifier
+	}
 	w := getWorld()
 	sig := garbage
 	if real {
@@ -355,6 +365,9 @@ func (e *e2e) verifyOCI(ref string, real bool) string {
 }
 
 func (e *e2e) skipOCI(ref string) string {
+	if !e.built {
+		return noVerifier
+	}
 	e.ts.log = nil
 	skip, lv, err := e.v.SkipVerify(context.Background(), notation.VerifierVerifyOptions{ArtifactReference: ref, SignatureMediaType: common.MediaJWS})
 	var npe notation.ErrorNoApplicableTrustPolicy
@@ -375,6 +388,9 @@ func (e *e2e) skipOCI(ref string) string {
 }
 
 func (e *e2e) verifyBlob(name string, real bool) string {
+	if !e.built {
+		return noVerifier
+	}
 	w := getWorld()
 	sig := garbage
 	if real {
@@ -417,8 +433,56 @@ func runCase(in Input, real func(q int) bool) Obs {
 			pristine = append(pristine, canonBlob(&d.TrustPolicies[i]))
 		}
 	}
+	// validation is observed, not assumed: the document's own Validate() and the verifier's
+	// constructor. Only when both refuse the document is there nothing to select from.
+	var verr error
+	if in.Kind == "oci" {
+		verr = parseOCI(raw).Validate()
+	} else {
+		verr = parseBlob(raw).Validate()
+	}
 	e := newE2E(in.Kind, in.Stmts, raw)
-	obs := Obs{Queries: []QObs{}}
+	obs := Obs{Validated: verr == nil, VerifierAccepts: e.built, Queries: []QObs{}}
+	if !obs.Validated && !obs.VerifierAccepts {
+		return obs
+	}
+	// the same document with its statements in reverse order (never mutated)
+	rev := make([]Stmt, len(in.Stmts))
+	for i := range in.Stmts {
+		rev[len(in.Stmts)-1-i] = in.Stmts[i]
+	}
+	rawRev := docJSON(in.Kind, rev)
+	var odRev *trustpolicy.OCIDocument
+	var bdRev *trustpolicy.BlobDocument
+	if in.Kind == "oci" {
+		odRev = parseOCI(rawRev)
+	} else {
+		bdRev = parseBlob(rawRev)
+	}
+	reversed := func(kind, q string) *string {
+		var name string
+		switch kind {
+		case "oci":
+			p, err := odRev.GetApplicableTrustPolicy(q)
+			if err != nil {
+				return nil
+			}
+			name = p.Name
+		case "blob":
+			p, err := bdRev.GetApplicableTrustPolicy(q)
+			if err != nil {
+				return nil
+			}
+			name = p.Name
+		default:
+			p, err := bdRev.GetGlobalTrustPolicy()
+			if err != nil {
+				return nil
+			}
+			name = p.Name
+		}
+		return &name
+	}
 
 	// the document the direct selections (and the mutations) work on, for the whole case
 	var od *trustpolicy.OCIDocument
@@ -455,7 +519,7 @@ func runCase(in Input, real func(q int) bool) Obs {
 		}
 	}
 	experiment := func(kind, q string) QObs {
-		o := QObs{CopyEqual: true, Intact: true}
+		o := QObs{CopyEqual: true, Intact: true, ReversedSel: reversed(kind, q)}
 		got, handle, err := sel(kind, q)
 		if err != nil {
 			return o
@@ -755,19 +819,6 @@ func blobQueries(c *common.Ctx, stmts []Stmt) []string {
 	return qs
 }
 
-func validate(kind string, stmts []Stmt) {
-	raw := docJSON(kind, stmts)
-	var err error
-	if kind == "oci" {
-		err = parseOCI(raw).Validate()
-	} else {
-		err = parseBlob(raw).Validate()
-	}
-	if err != nil {
-		panic(fmt.Sprintf("generator emitted an invalid %s document: %v\n%s", kind, err, raw))
-	}
-}
-
 // cases are generated sequentially (all randomness from c.Rand), executed by a pool of
 // workers (every case has its own documents, verifier and trust store) and emitted in
 // generation order.
@@ -775,6 +826,7 @@ type job struct {
 	in        Input
 	pi        int
 	realEvery int
+	label     string // what the generator intended: "unique" or the uniqueness rule it broke
 }
 
 func (j job) real(q int) bool { return j.pi == 0 || (q+j.pi)%j.realEvery == 0 }
@@ -803,10 +855,13 @@ func flush(c *common.Ctx) {
 		in, o, kind := j.in, results[k], j.in.Kind
 		c.Emit(in, o)
 		c.Count("kind=" + kind)
+		c.Count(fmt.Sprintf("document=%s validated=%v verifierAccepts=%v", j.label, o.Validated, o.VerifierAccepts))
 		c.Count(fmt.Sprintf("%s.statements=%d", kind, len(in.Stmts)))
-		for q := range in.Queries {
-			if j.real(q) {
-				c.Count("verified-with-genuine-envelope")
+		if len(o.Queries) > 0 {
+			for q := range in.Queries {
+				if j.real(q) {
+					c.Count("verified-with-genuine-envelope")
+				}
 			}
 		}
 		for _, q := range o.Queries {
@@ -827,28 +882,146 @@ func flush(c *common.Ctx) {
 	pending = pending[:0]
 }
 
-func emitAllPerms(c *common.Ctx, kind string, stmts []Stmt, queries []string, realEvery int) {
-	validate(kind, stmts)
+func emitAllPerms(c *common.Ctx, kind, label string, stmts []Stmt, queries []string, realEvery int) {
 	for pi, p := range perms(len(stmts)) {
 		in := Input{Kind: kind, Stmts: make([]Stmt, len(stmts)), Queries: queries}
 		for i, j := range p {
 			in.Stmts[i] = stmts[j]
 		}
 		// a genuine envelope on the first permutation for every query, otherwise on a rotating sample
-		pending = append(pending, job{in: in, pi: pi, realEvery: realEvery})
+		pending = append(pending, job{in: in, pi: pi, realEvery: realEvery, label: label})
 	}
 	if len(pending) >= 1024 {
 		flush(c)
 	}
 }
 
+// ---- documents that break one uniqueness rule (everything else stays valid) ---------------------
+
+var ociDefects = []string{"two-wildcard-statements", "three-wildcard-statements", "scope-in-two-statements",
+	"scope-twice-in-one-statement", "duplicate-statement-name", "wildcard-next-to-another-scope"}
+
+// breakOCI turns a valid document into one that violates exactly the named rule.
+func breakOCI(c *common.Ctx, stmts []Stmt, defect string) ([]Stmt, bool) {
+	k := len(stmts)
+	var wild, plain []int
+	for i, s := range stmts {
+		if len(s.Scopes) == 1 && s.Scopes[0] == "*" {
+			wild = append(wild, i)
+		} else {
+			plain = append(plain, i)
+		}
+	}
+	pick := func(l []int) int { return l[c.Rand.Intn(len(l))] }
+	switch defect {
+	case "two-wildcard-statements", "three-wildcard-statements":
+		want := 2
+		if defect == "three-wildcard-statements" {
+			want = 3
+		}
+		if k < want {
+			return nil, false
+		}
+		for len(wild) < want && len(plain) > 0 {
+			j := c.Rand.Intn(len(plain))
+			stmts[plain[j]].Scopes = []string{"*"}
+			wild = append(wild, plain[j])
+			plain = append(plain[:j], plain[j+1:]...)
+		}
+		return stmts, len(wild) >= want
+	case "scope-in-two-statements":
+		if len(plain) < 2 {
+			return nil, false
+		}
+		a := pick(plain)
+		b := pick(plain)
+		for b == a {
+			b = pick(plain)
+		}
+		sc := stmts[a].Scopes[c.Rand.Intn(len(stmts[a].Scopes))]
+		pos := c.Rand.Intn(len(stmts[b].Scopes) + 1)
+		stmts[b].Scopes = append(append(append([]string{}, stmts[b].Scopes[:pos]...), sc), stmts[b].Scopes[pos:]...)
+		return stmts, true
+	case "scope-twice-in-one-statement":
+		if len(plain) < 1 {
+			return nil, false
+		}
+		a := pick(plain)
+		stmts[a].Scopes = append(stmts[a].Scopes, stmts[a].Scopes[c.Rand.Intn(len(stmts[a].Scopes))])
+		return stmts, true
+	case "duplicate-statement-name":
+		if k < 2 {
+			return nil, false
+		}
+		a := c.Rand.Intn(k)
+		b := c.Rand.Intn(k)
+		for b == a {
+			b = c.Rand.Intn(k)
+		}
+		stmts[b].Name = stmts[a].Name
+		return stmts, true
+	default: // wildcard-next-to-another-scope
+		if len(plain) < 1 || len(wild) > 0 {
+			return nil, false
+		}
+		a := pick(plain)
+		if c.Rand.Intn(2) == 0 {
+			stmts[a].Scopes = append([]string{"*"}, stmts[a].Scopes...)
+		} else {
+			stmts[a].Scopes = append(stmts[a].Scopes, "*")
+		}
+		return stmts, true
+	}
+}
+
+func genBrokenOCIDoc(c *common.Ctx, k int, defect string) []Stmt {
+	for {
+		stmts, ok := breakOCI(c, genOCIDoc(c, k, c.Rand.Intn(2) == 0), defect)
+		if ok {
+			return stmts
+		}
+	}
+}
+
+var blobDefects = []string{"two-global-statements", "duplicate-statement-name"}
+
+func genBrokenBlobDoc(c *common.Ctx, k int, defect string) []Stmt {
+	for {
+		stmts := genBlobDoc(c, k, true)
+		a := c.Rand.Intn(k)
+		b := c.Rand.Intn(k)
+		if a == b {
+			continue
+		}
+		if defect == "two-global-statements" {
+			g := -1
+			for i, s := range stmts {
+				if s.IsGlobal {
+					g = i
+				}
+			}
+			o := a
+			if o == g {
+				o = b
+			}
+			if stmts[o].Level == "skip" {
+				continue // a global statement must not be skip: that is another rule (C09)
+			}
+			stmts[o].IsGlobal = true
+		} else {
+			stmts[b].Name = stmts[a].Name
+		}
+		return stmts
+	}
+}
+
 // Run: documents x all permutations x query battery.
 func Run(c *common.Ctx) error {
-	nOCI, nBlob, realEvery := 400, 80, 7
+	nOCI, nBlob, nBadOCI, nBadBlob, realEvery := 400, 80, 120, 30, 7
 	getWorld() // before the workers start
 	pending = nil
 	if c.Thorough() {
-		nOCI, nBlob, realEvery = 6000, 1000, 5
+		nOCI, nBlob, nBadOCI, nBadBlob, realEvery = 6000, 1000, 1500, 300, 5
 	}
 	// fixed documents that pin the near-miss shapes whatever the seed
 	fixed := [][]Stmt{
@@ -865,20 +1038,54 @@ func Run(c *common.Ctx) error {
 		for i := range stmts {
 			fill(c, &stmts[i], i, cfgs[i])
 		}
-		emitAllPerms(c, "oci", stmts, ociQueries(c, stmts), realEvery)
+		emitAllPerms(c, "oci", "unique", stmts, ociQueries(c, stmts), realEvery)
+	}
+	// fixed documents that break a uniqueness rule
+	fixedBad := []struct {
+		label string
+		stmts []Stmt
+	}{
+		{"two-wildcard-statements", []Stmt{{Name: "p0", Scopes: []string{"*"}}, {Name: "p1", Scopes: []string{"*"}}}},
+		{"two-wildcard-statements", []Stmt{{Name: "p0", Scopes: []string{"*"}}, {Name: "p1", Scopes: []string{"registry.example/app"}}, {Name: "p2", Scopes: []string{"*"}}}},
+		{"scope-in-two-statements", []Stmt{{Name: "p0", Scopes: []string{"registry.example/app"}}, {Name: "p1", Scopes: []string{"registry.example/app2", "registry.example/app"}}}},
+		{"scope-twice-in-one-statement", []Stmt{{Name: "p0", Scopes: []string{"registry.example/app", "registry.example/app"}}}},
+		{"duplicate-statement-name", []Stmt{{Name: "p0", Scopes: []string{"registry.example/app"}}, {Name: "p0", Scopes: []string{"registry.example/app2"}}}},
+		{"wildcard-next-to-another-scope", []Stmt{{Name: "p0", Scopes: []string{"*", "registry.example/app"}}, {Name: "p1", Scopes: []string{"registry.example/app2"}}}},
+	}
+	for _, fb := range fixedBad {
+		cfgs := pickCfgs(c, len(fb.stmts), -1)
+		for i := range fb.stmts {
+			fill(c, &fb.stmts[i], i, cfgs[i])
+		}
+		emitAllPerms(c, "oci", fb.label, fb.stmts, ociQueries(c, fb.stmts), realEvery)
+	}
+	for n := 0; n < nBadOCI; n++ {
+		defect := ociDefects[n%len(ociDefects)]
+		k := 2 + c.Rand.Intn(3)
+		if defect == "three-wildcard-statements" {
+			k = 3 + c.Rand.Intn(2)
+		}
+		stmts := genBrokenOCIDoc(c, k, defect)
+		emitAllPerms(c, "oci", defect, stmts, ociQueries(c, stmts), realEvery)
+	}
+	for n := 0; n < nBadBlob; n++ {
+		defect := blobDefects[n%len(blobDefects)]
+		stmts := genBrokenBlobDoc(c, 2+c.Rand.Intn(3), defect)
+		emitAllPerms(c, "blob", defect, stmts, blobQueries(c, stmts), realEvery)
 	}
 	for n := 0; n < nOCI; n++ {
 		k := 1 + n%4
 		stmts := genOCIDoc(c, k, c.Rand.Intn(2) == 0)
-		emitAllPerms(c, "oci", stmts, ociQueries(c, stmts), realEvery)
+		emitAllPerms(c, "oci", "unique", stmts, ociQueries(c, stmts), realEvery)
 	}
 	for n := 0; n < nBlob; n++ {
 		k := 1 + n%4
 		stmts := genBlobDoc(c, k, c.Rand.Intn(3) != 0)
-		emitAllPerms(c, "blob", stmts, blobQueries(c, stmts), realEvery)
+		emitAllPerms(c, "blob", "unique", stmts, blobQueries(c, stmts), realEvery)
 	}
 	flush(c)
-	c.Note("valid documents (real Validate() accepts each): %d fixed + %d random OCI documents of 1..4 statements over a %d-scope near-miss alphabet with/without a wildcard statement, %d random blob documents of 1..4 statements with/without a global one; every document in ALL permutations of its statements; per case %d+ OCI references (listed, unlisted, prefix/extension, case variants, tag, tag+digest, no digest, two '@', wildcard paths, blanks, random one-edit variants) or %d+ blob names; each query through the document selection, verifier.Verify/SkipVerify/VerifyBlob (garbage envelope always, genuine envelope on the first permutation and a rotating sample), then reflection-mutation of the handed-out copy and re-selection",
+	c.Note("documents breaking exactly one uniqueness rule (two / three wildcard statements, a scope in two statements, a scope twice in one statement, duplicate statement names, wildcard next to another scope; blob: two global statements, duplicate names): %d fixed + %d random OCI, %d random blob, all permutations - Validate() and the verifier constructor are OBSERVED (validated / verifierAccepts), and if either accepts such a document the full selection experiment runs on it; every selection is repeated on the reversed document. ", len(fixedBad), nBadOCI, nBadBlob)
+	c.Note("documents satisfying the uniqueness rules (Validate() observed, not assumed): %d fixed + %d random OCI documents of 1..4 statements over a %d-scope near-miss alphabet with/without a wildcard statement, %d random blob documents of 1..4 statements with/without a global one; every document in ALL permutations of its statements; per case %d+ OCI references (listed, unlisted, prefix/extension, case variants, tag, tag+digest, no digest, two '@', wildcard paths, blanks, random one-edit variants) or %d+ blob names; each query through the document selection, verifier.Verify/SkipVerify/VerifyBlob (garbage envelope always, genuine envelope on the first permutation and a rotating sample), then reflection-mutation of the handed-out copy and re-selection",
 		len(fixed), nOCI, len(scopeAlphabet), nBlob, 31+3, len(blobNames)+8+2)
 	return nil
 }
